@@ -963,6 +963,11 @@ pub(crate) fn verify_tau(
         }
         Ok(true)
     } else {
+        if start_epoch.number() > end_epoch.number() {
+            error!("failed: the epoch number is decreased");
+            let errmsg = "epochs should be sorted (monotonic increasing)";
+            return Err(StatusCode::MalformedProtocolMessage.with_context(errmsg));
+        }
         let start_block_difficulty = compact_to_difficulty(start_compact_target);
         let end_block_difficulty = compact_to_difficulty(end_compact_target);
         let start_epoch_difficulty = start_block_difficulty * start_epoch.length();
@@ -989,6 +994,17 @@ pub(crate) fn verify_total_difficulty(
             "failed since total difficulty is decreased from {:#x} to {:#x} \
             during epochs ([{:#},{:#}])",
             start_total_difficulty, end_total_difficulty, start_epoch, end_epoch
+        );
+        return Err(errmsg);
+    }
+
+    if start_epoch.number() > end_epoch.number()
+        || (start_epoch.number() == end_epoch.number() && start_epoch.index() > end_epoch.index())
+        || !start_epoch.is_well_formed()
+    {
+        let errmsg = format!(
+            "failed since the epochs ([{:#},{:#}]) are decreased or ill-formed",
+            start_epoch, end_epoch
         );
         return Err(errmsg);
     }
